@@ -72,4 +72,17 @@ theorem built_packet_serializes_all (os : List Wire.AnyObj) (hs : Wire.ChainAll.
     ∃ out, Wire.serializeObjs os = .ok out ∧ out.length = Wire.sizeOf (Wire.sems os) :=
   Wire.ChainAll.stackableAll_serializes os hs
 
+/-! ### codec half: every typed option encoder and its decoder are mutual inverses (family summaries; inventory of all typed
+    codecs of libtins with theorem names: `tools/CODEC-INVENTORY.md`, regenerated by `tools/codec_inventory.py`) -/
+
+/-- **icmp6_typed_codecs** — all 24 typed ICMPv6 option setters against their getters, for every representable argument
+    (`Repr*` predicates of `Wire/Icmp/ThCodec6.lean`; lists of any length, any octets, any padding 0 … 7) -/
+theorem icmp6_typed_codecs : type_of% @Wire.Icmp.icmp6_typed_codecs_inverse := Wire.Icmp.icmp6_typed_codecs_inverse
+
+/-- the DNS search list codec (the codec of seeded/C04e) on its own -/
+theorem icmp6_dns_search_list_codec (lt : Nat) (dss : List (List Bytes)) (h : Wire.Icmp.ReprDnsSearch lt dss) :
+    Wire.Icmp.Icmp6.decDnsSearch (Wire.Icmp.Icmp6.encDnsSearch lt (dss.map Wire.Icmp.joinDots)) =
+      .val s!"{lt}.{Wire.Icmp.Icmp6.joinWithSep "," ((dss.map Wire.Icmp.joinDots).map Wire.hexStr)}" :=
+  Wire.Icmp.dns_search_list_codec_inverse lt dss h
+
 end Tins.Props.C04
